@@ -20,10 +20,11 @@ import (
 
 type callForm struct {
 	name     string
-	setup    string // run before the limit is configured
-	call     string // one nested invocation of r
-	perLevel int    // frames per nesting level: script frames + native trampolines that stay on the stack
-	extra    string // what the second frame per level is, where there is one
+	setup    string          // run before the limit is configured
+	call     string          // one nested invocation of r
+	perLevel int             // frames per nesting level: script frames + native trampolines that stay on the stack
+	extra    string          // what the second frame per level is, where there is one
+	need     func(d int) int // overrides d*perLevel where the accounting is not linear
 }
 
 var callForms = []callForm{
@@ -37,8 +38,29 @@ var callForms = []callForm{
 	{name: "valueOf", setup: `vo = { valueOf: r };`, call: `+vo;`, perLevel: 1},
 	{name: "forEach", setup: `one = [1];`, call: `one.forEach(r);`, perLevel: 2, extra: "Array.prototype.forEach"},
 	{name: "sort", setup: `two = [2, 1];`, call: `two.sort(r);`, perLevel: 2, extra: "Array.prototype.sort"},
-	{name: "eval", call: `eval("r()");`, perLevel: 1},
+	// A direct eval enters no scope, but every ACTIVE direct eval counts one unit
+	// (runtime.evalDepth; the check is made when an eval starts, against
+	// scope depth + active evals). With the top-level entry also an eval, eval
+	// number i (0-based, started by r number i) sees i + (i+1); the deepest r
+	// frame itself needs d: need = max(d, 2(d-1)+1) = 2d-1.
+	{name: "eval", call: `eval("r()");`, need: func(d int) int { return 2*d - 1 }, extra: "one unit per active direct eval"},
+	// indirect eval: native frame of eval + the global frame it enters + r
+	{name: "eval_indirect", call: `(0, eval)("r()");`, perLevel: 3, extra: "eval's native frame and the global frame it enters"},
+	// a host function re-entering the runtime: its native frame, (for Run / Otto.Call) a global frame, r
+	{name: "host_run", call: `hrec(0);`, perLevel: 3, extra: "host function frame and the global frame of Otto.Run"},
+	{name: "host_otto_call", call: `hrec(1);`, perLevel: 3, extra: "host function frame and the global frame of Otto.Call"},
+	{name: "host_value_call", call: `hrec(2);`, perLevel: 2, extra: "host function frame"},
 	{name: "Function", call: `Function("r()")();`, perLevel: 2, extra: "anonymous function created by Function (a script frame)"},
+}
+
+func (f callForm) needed(d int) int {
+	if d == 0 {
+		return 0
+	}
+	if f.need != nil {
+		return f.need(d)
+	}
+	return d * f.perLevel
 }
 
 func limitSetup(f callForm) string {
@@ -59,6 +81,7 @@ func limitProgram(f callForm, d int, caught bool) string {
 func runLimits(r *engine.Run) {
 	r.Bound("L", "0..12")
 	r.Bound("d", "0..14")
+	r.Bound("forms", "12 script-level call forms + indirect eval + 3 host re-entry forms")
 	r.Bound("call_forms", fmt.Sprint(len(callForms)))
 	for _, f := range callForms {
 		for L := 0; L <= 12; L++ {
@@ -96,7 +119,7 @@ func checkLimit(r *engine.Run, f callForm, L, d int, caught bool, key string) {
 	sess := &session{h: h, vm: vm, p: &prog{src: src}}
 	e := sess.run(injection{mode: modePlain}, nil, termCap)
 
-	need := d * f.perLevel
+	need := f.needed(d)
 	success := L == 0 || need < L
 	var exp string
 	switch {
@@ -117,6 +140,12 @@ func checkLimit(r *engine.Run, f callForm, L, d int, caught bool, key string) {
 	}
 	if exp != obs {
 		r.Mismatch(engine.Mismatch{Key: key, Input: input, Expected: exp, Observed: obs, Aux: map[string]string{"kind": "limit"}})
+		return
+	}
+	// the threshold has not moved: the same program under the same limit ends the same way again
+	e2 := sess.run(injection{mode: modePlain}, nil, termCap)
+	if obs2 := e2.out.outcome(nil) + "; rest=" + e2.rest(); obs2 != exp {
+		r.Mismatch(engine.Mismatch{Key: key, Input: "SECOND run on the same runtime: " + input, Expected: exp, Observed: obs2, Aux: map[string]string{"kind": "limit"}})
 		return
 	}
 	// the runtime is reusable afterwards (limit lifted so that the follow-up itself fits)
